@@ -3,7 +3,8 @@
 //!     `parse_gcov_gz(gzip(render(toJson doc))) = sem doc`, with shrinking;
 //! (2) tie of `parse_gcov` to the Lean model `Gcov.Text.parse` (bytes) and of `parse_gcov_gz` to
 //!     `Gcov.Json.fromReader` (JSON value tree) on well-formed and malformed inputs;
-//! (3) robustness oracle (belongs to C14): no input may panic the reader.
+//! (3) robustness oracle (shared with C14): no input may panic the reader; the witnesses of the two
+//!     defects repaired in /repo 9e71186 are replayed first and must give `err …`.
 mod json;
 mod text;
 
@@ -13,8 +14,6 @@ use json::J;
 use serde_json::json;
 use std::path::PathBuf;
 
-const F_TEXT_NO_FILE: &str = "C14-gcov-text-no-file";
-const F_JSON_UNWRAP: &str = "C14-gcov-json-unwrap";
 const MODEL: &str = "gm_c09";
 
 struct Ctx {
@@ -58,32 +57,6 @@ fn json_req(tree: Option<&J>) -> String {
             s
         }
     }
-}
-
-// ---------------------------------------------------------------------------------------------
-// named matchers of the robustness findings (call site + failing condition)
-
-/// `parse_gcov` ends with at least one `lcount` read and no `file:` record before it:
-/// `cur_file.unwrap()` on None after the loop
-fn match_text_no_file(bytes: &[u8], out: &str, site: &str) -> bool {
-    if out != "panic" || !site.contains("Option::unwrap()") || !site.contains("parser.rs") {
-        return false;
-    }
-    let mut seen_lcount = false;
-    for l in bytes.split(|&c| c == b'\n') {
-        if l.starts_with(b"file:") {
-            return false;
-        }
-        if l.starts_with(b"lcount:") {
-            seen_lcount = true;
-        }
-    }
-    seen_lcount
-}
-
-/// `parse_gcov_gz`: `serde_json::from_reader(gz).unwrap()` on any gzip, JSON syntax or schema error
-fn match_json_unwrap(out: &str, site: &str) -> bool {
-    out == "panic" && site.contains("Result::unwrap()") && site.contains("parser.rs")
 }
 
 // ---------------------------------------------------------------------------------------------
@@ -333,55 +306,33 @@ struct TieCase {
     oracle_failed: bool,
 }
 
-fn report_panic(rep: &mut Report, c: &TieCase, budget: &mut [u32; 2]) {
+/// robustness oracle: a panic of either reader on any input is a violation
+fn report_panic(rep: &mut Report, ctx: &Ctx, c: &TieCase, budget: &mut u32) {
     if c.impl_out != "panic" {
         return;
     }
+    rep.count(if c.is_text { "robustness.panic.text" } else { "robustness.panic.json" });
+    if *budget == 0 {
+        return;
+    }
+    *budget -= 1;
     if c.is_text {
-        if match_text_no_file(&c.bytes, &c.impl_out, &c.site) {
-            rep.count("robustness.panic.C14-gcov-text-no-file");
-            if budget[0] > 0 {
-                budget[0] -= 1;
-                let min = shrink_text_panic(rep, &c.bytes);
-                rep.fail(
-                    "oracle",
-                    Some(F_TEXT_NO_FILE),
-                    format!("parse_gcov panics (robustness, C14): {}", c.site),
-                    json!({"op": "gcov.text", "input_hex": hex(&min), "input": String::from_utf8_lossy(&min),
-                           "impl": "panic", "site": c.site}),
-                );
-            }
-        } else {
-            rep.count("robustness.panic.unmatched");
-            rep.fail(
-                "oracle",
-                None,
-                format!("parse_gcov panics at an unrecorded site: {}", c.site),
-                json!({"op": "gcov.text", "input_hex": hex(&c.bytes), "input": String::from_utf8_lossy(&c.bytes),
-                       "impl": "panic", "site": c.site}),
-            );
-        }
-    } else if match_json_unwrap(&c.impl_out, &c.site) {
-        rep.count("robustness.panic.C14-gcov-json-unwrap");
-        if budget[1] > 0 {
-            budget[1] -= 1;
-            rep.fail(
-                "oracle",
-                Some(F_JSON_UNWRAP),
-                format!("parse_gcov_gz panics (robustness, C14): {}", truncate(&c.site, 300)),
-                json!({"op": "gcov.json", "gz_hex": hex(&c.bytes), "json": c.json_text,
-                       "tree": c.req.strip_prefix("gcov.json ").unwrap_or("!"), "impl": "panic",
-                       "site": truncate(&c.site, 300)}),
-            );
-        }
-    } else {
-        rep.count("robustness.panic.unmatched");
+        let min = shrink_text_panic(ctx, &c.bytes);
         rep.fail(
             "oracle",
             None,
-            format!("parse_gcov_gz panics at an unrecorded site: {}", truncate(&c.site, 300)),
+            format!("parse_gcov panics: {}", truncate(&c.site, 300)),
+            json!({"op": "gcov.text", "input_hex": hex(&min), "input": String::from_utf8_lossy(&min),
+                   "impl": "panic", "site": truncate(&c.site, 300)}),
+        );
+    } else {
+        rep.fail(
+            "oracle",
+            None,
+            format!("parse_gcov_gz panics: {}", truncate(&c.site, 300)),
             json!({"op": "gcov.json", "gz_hex": hex(&c.bytes), "json": c.json_text,
-                   "tree": c.req.strip_prefix("gcov.json ").unwrap_or("!"), "impl": "panic"}),
+                   "tree": c.req.strip_prefix("gcov.json ").unwrap_or("!"), "impl": "panic",
+                   "site": truncate(&c.site, 300)}),
         );
     }
 }
@@ -390,17 +341,15 @@ fn truncate(s: &str, n: usize) -> String {
     s.chars().take(n).collect()
 }
 
-/// smallest set of lines that still panics the same way
-fn shrink_text_panic(rep: &Report, bytes: &[u8]) -> Vec<u8> {
-    let ctx = Ctx::new(rep);
+/// smallest set of lines that still panics
+fn shrink_text_panic(ctx: &Ctx, bytes: &[u8]) -> Vec<u8> {
     let mut cur = bytes.to_vec();
     loop {
         let lines: Vec<&[u8]> = cur.split_inclusive(|&c| c == b'\n').collect();
         let mut next = None;
         for i in 0..lines.len() {
             let t: Vec<u8> = lines.iter().enumerate().filter(|(j, _)| *j != i).flat_map(|(_, l)| l.iter().cloned()).collect();
-            let (o, s) = impl_text(&ctx, &t);
-            if match_text_no_file(&t, &o, &s) {
+            if impl_text(ctx, &t).0 == "panic" {
                 next = Some(t);
                 break;
             }
@@ -501,17 +450,22 @@ fn tie(rep: &mut Report, ctx: &Ctx, cases: &[TieCase]) {
     }
 }
 
-/// fixed witnesses: the two robustness defects and a few boundary documents
-fn witnesses_text() -> Vec<(&'static str, Vec<u8>)> {
+/// fixed corpus: the witnesses of the two repaired robustness defects (must now be errors) and a
+/// few boundary files, each with the outcome the property demands
+fn witnesses_text() -> Vec<(&'static str, Vec<u8>, &'static str)> {
     vec![
-        ("lcount_before_any_file", b"lcount:1,1\n".to_vec()),
-        ("function_then_lcount_no_file", b"version:7\nfunction:1,1,f\nlcount:2,0\n".to_vec()),
-        ("lcount_before_file_is_dropped", b"lcount:1,1\nfile:a.c\nlcount:2,3\n".to_vec()),
-        ("count_2^64", b"file:a.c\nlcount:1,18446744073709551616\n".to_vec()),
-        ("count_u64max", b"file:a.c\nlcount:1,18446744073709551615\n".to_vec()),
-        ("negative", b"file:a.c\nlcount:1,-7\nlcount:2,-\n".to_vec()),
-        ("blank_line", b"file:a.c\n\nlcount:1,1\n".to_vec()),
-        ("crlf_and_no_final_newline", b"file:a.c\r\nfunction:3,0,a,b,c\r\nbranch:3,taken\r\nbranch:3,nottaken\r\nlcount:3,+07\r".to_vec()),
+        ("lcount_before_any_file", b"lcount:1,1\n".to_vec(), "err InvalidRecord"),
+        ("function_then_lcount_no_file", b"version:7\nfunction:1,1,f\nlcount:2,0\n".to_vec(), "err InvalidRecord"),
+        ("lcount_before_file_is_dropped", b"lcount:1,1\nfile:a.c\nlcount:2,3\n".to_vec(), "ok K612e63=L2:3;B;F"),
+        ("count_2^64", b"file:a.c\nlcount:1,18446744073709551616\n".to_vec(), "err Parse"),
+        ("count_u64max", b"file:a.c\nlcount:1,18446744073709551615\n".to_vec(), "ok K612e63=L1:18446744073709551615;B;F"),
+        ("negative", b"file:a.c\nlcount:1,-7\nlcount:2,-\n".to_vec(), "ok K612e63=L1:0,2:0;B;F"),
+        ("blank_line", b"file:a.c\n\nlcount:1,1\n".to_vec(), "err InvalidRecord"),
+        (
+            "crlf_and_no_final_newline",
+            b"file:a.c\r\nfunction:3,0,a,b,c\r\nbranch:3,taken\r\nbranch:3,nottaken\r\nlcount:3,+07\r".to_vec(),
+            "ok K612e63=L3:7;B3:10;F612c622c63:3:0",
+        ),
     ]
 }
 
@@ -531,16 +485,35 @@ pub fn run(rep: &mut Report) {
     let mut cases: Vec<TieCase> = vec![];
 
     // ---- fixed witnesses ------------------------------------------------------------------------
-    for (name, bytes) in witnesses_text() {
+    for (name, bytes, want) in witnesses_text() {
         let (out, site) = impl_text(&ctx, &bytes);
         rep.count(&format!("witness.text.{}", name));
         rep.case(&format!("witness {}", name), true);
+        if out != want {
+            rep.fail(
+                "oracle",
+                None,
+                format!("corpus witness {}: parse_gcov gives {} instead of {}", name, out, want),
+                json!({"op": "gcov.text", "input_hex": hex(&bytes), "input": String::from_utf8_lossy(&bytes),
+                       "impl": out, "spec": want}),
+            );
+        }
         cases.push(TieCase { req: text_req(&bytes), impl_out: out, site, bytes, json_text: None, is_text: true, oracle_failed: false });
     }
-    for (name, gz, tree, text) in witnesses_json(&mut rng) {
+    for (name, gz, tree, text, want) in witnesses_json(&mut rng) {
         let (out, site) = impl_gz(&ctx, &gz);
         rep.count(&format!("witness.json.{}", name));
         rep.case(&format!("witness {}", name), true);
+        if out != want {
+            rep.fail(
+                "oracle",
+                None,
+                format!("corpus witness {}: parse_gcov_gz gives {} instead of {}", name, out, want),
+                json!({"op": "gcov.json", "gz_hex": hex(&gz), "json": text,
+                       "tree": json_req(tree.as_ref()).strip_prefix("gcov.json ").unwrap_or("!"),
+                       "impl": out, "spec": want}),
+            );
+        }
         cases.push(TieCase { req: json_req(tree.as_ref()), impl_out: out, site, bytes: gz, json_text: text, is_text: false, oracle_failed: false });
     }
 
@@ -671,22 +644,23 @@ pub fn run(rep: &mut Report) {
     }
 
     // ---- robustness oracle (C14) on every case, then the tie ----------------------------------
-    let mut budget = [2u32, 2u32];
+    let mut budget = 6u32;
     for c in &cases {
-        report_panic(rep, c, &mut budget);
+        report_panic(rep, &ctx, c, &mut budget);
     }
     tie(rep, &ctx, &cases);
 }
 
-fn witnesses_json(rng: &mut Rng) -> Vec<(&'static str, Vec<u8>, Option<J>, Option<String>)> {
+fn witnesses_json(rng: &mut Rng) -> Vec<(&'static str, Vec<u8>, Option<J>, Option<String>, &'static str)> {
     let mut out = vec![];
-    out.push(("not_gzip", b"this is not gzip".to_vec(), None, None));
-    out.push(("empty_file", vec![], None, None));
-    let mut add = |name: &'static str, tree: J, rng: &mut Rng| {
+    const BAD: &str = "err InvalidData";
+    out.push(("not_gzip", b"this is not gzip".to_vec(), None, None, BAD));
+    out.push(("empty_file", vec![], None, None, BAD));
+    let mut add = |name: &'static str, tree: J, want: &'static str, rng: &mut Rng| {
         let c = build_json_case(tree, rng, 0);
-        out.push((name, c.gz, Some(c.tree), Some(c.text)));
+        out.push((name, c.gz, Some(c.tree), Some(c.text), want));
     };
-    add("empty_object", J::Obj(vec![]), rng);
+    add("empty_object", J::Obj(vec![]), BAD, rng);
     let line = |count: J| {
         J::Obj(vec![
             ("line_number".into(), J::Num(json::N::Pos(7))),
@@ -710,22 +684,22 @@ fn witnesses_json(rng: &mut Rng) -> Vec<(&'static str, Vec<u8>, Option<J>, Optio
             ),
         ])
     };
-    add("minimal_valid", doc(vec![line(J::Num(json::N::Pos(3)))]), rng);
+    add("minimal_valid", doc(vec![line(J::Num(json::N::Pos(3)))]), "ok K612e63=L7:3;B;F", rng);
     add("missing_key_files", J::Obj(vec![
         ("format_version".into(), J::Str("1".into())),
         ("gcc_version".into(), J::Str("9".into())),
         ("data_file".into(), J::Str("a.gcda".into())),
-    ]), rng);
-    add("float_2^64_saturates", doc(vec![line(J::Num(json::N::Flt { text: "1.8446744073709552e19".into(), neg: false, m: 1, e: 64 }))]), rng);
-    add("float_above_2^64", doc(vec![line(J::Num(json::N::Flt { text: "1.8446744073709556e19".into(), neg: false, m: (1 << 52) + 1, e: 12 }))]), rng);
-    add("float_minus_zero", doc(vec![line(J::Num(json::N::Flt { text: "-0.0".into(), neg: true, m: 0, e: 0 }))]), rng);
-    add("negative_count", doc(vec![line(J::Num(json::N::Neg(1)))]), rng);
-    add("float_2.5_truncates", doc(vec![line(J::Num(json::N::Flt { text: "2.5".into(), neg: false, m: 5, e: -1 }))]), rng);
+    ]), BAD, rng);
+    add("float_2^64_saturates", doc(vec![line(J::Num(json::N::Flt { text: "1.8446744073709552e19".into(), neg: false, m: 1, e: 64 }))]), "ok K612e63=L7:18446744073709551615;B;F", rng);
+    add("float_above_2^64", doc(vec![line(J::Num(json::N::Flt { text: "1.8446744073709556e19".into(), neg: false, m: (1 << 52) + 1, e: 12 }))]), BAD, rng);
+    add("float_minus_zero", doc(vec![line(J::Num(json::N::Flt { text: "-0.0".into(), neg: true, m: 0, e: 0 }))]), "ok K612e63=L7:0;B;F", rng);
+    add("negative_count", doc(vec![line(J::Num(json::N::Neg(1)))]), BAD, rng);
+    add("float_2.5_truncates", doc(vec![line(J::Num(json::N::Flt { text: "2.5".into(), neg: false, m: 5, e: -1 }))]), "ok K612e63=L7:2;B;F", rng);
     add("struct_as_array", J::Arr(vec![
         J::Str("1".into()), J::Str("9".into()), J::Null, J::Str("d".into()),
         J::Arr(vec![J::Arr(vec![J::Str("a.c".into()), J::Arr(vec![]),
             J::Arr(vec![J::Arr(vec![J::Num(json::N::Pos(1)), J::Null, J::Num(json::N::Pos(5)), J::Bool(false), J::Arr(vec![])])])])]),
-    ]), rng);
+    ]), "ok K612e63=L1:5;B;F", rng);
     out
 }
 
@@ -744,8 +718,7 @@ pub fn replay(rep: &mut Report, case: &serde_json::Value) {
                 }
             }
             if got == "panic" {
-                let f = if match_text_no_file(&bytes, &got, &site) { Some(F_TEXT_NO_FILE) } else { None };
-                rep.fail("oracle", f, format!("parse_gcov panics: {}", site), case.clone());
+                rep.fail("oracle", None, format!("parse_gcov panics: {}", site), case.clone());
                 return;
             }
             if got != model {
@@ -765,8 +738,7 @@ pub fn replay(rep: &mut Report, case: &serde_json::Value) {
                 }
             }
             if got == "panic" {
-                let f = if match_json_unwrap(&got, &site) { Some(F_JSON_UNWRAP) } else { None };
-                rep.fail("oracle", f, format!("parse_gcov_gz panics: {}", truncate(&site, 300)), case.clone());
+                rep.fail("oracle", None, format!("parse_gcov_gz panics: {}", truncate(&site, 300)), case.clone());
                 return;
             }
             if got != model {
